@@ -263,6 +263,13 @@ func monitorTrace(d *metDriver, r interface{ Intn(int) int }, length int) {
 			s := r.Intn(2) == 0
 			pm.RecordDatabaseOperation(ops[o], time.Duration(r.Intn(5000))*time.Microsecond, s)
 			d.emit(&metEv{Op: "recdb", Name: o, Hit: s})
+		case x < 88: // the switch: nothing is recorded while off, and switching it (on again, too) loses nothing
+			b := r.Intn(2) == 0
+			pm.Enable(b)
+			d.emit(&metEv{Op: "menable", Hit: b})
+			if r.Intn(2) == 0 {
+				emitReport(d, pm.GetPerformanceReport(), ops)
+			}
 		default:
 			emitReport(d, pm.GetPerformanceReport(), ops)
 		}
